@@ -10,6 +10,7 @@ The tree (object names and link names are those of spec/frontends/WebAuthority.t
   SUB  --f--> SF (CHK)   --m--> M3 (MDMF, rw link)
   D2   --f--> DF (CHK)   --m--> M4 (SDMF, rw link)   --d--> D3 (rw link)
   D3   --f--> XF (CHK)
+  ID   --f--> IMM        (ID: immutable directory, linked from ROOT as "idir")
   SPARE: a mutable file outside the tree whose read-only cap is what t=uri / set_children link.
 
 Input  {"requests": [{"id", "op", "start": {"obj", "auth"}, "path": [names], "args": {...}}, ...], "order": [...]}
@@ -70,6 +71,10 @@ class Tree:
         run(ROOT.set_node("sub", SUB))
         run(ROOT.set_uri("rosub", None, D2.get_readonly_uri()))
         run(ROOT.set_node("d2rw", D2))
+        ID = run(c.create_immutable_dirnode({"f": (IMM, {})}))
+        self._remember("ID", ID)
+        run(ROOT.set_node("idir", ID))
+        self.keep.append(ID)
         # a spare object to link with t=uri / set_children (read-only cap of a fresh mutable file: no secret of the tree)
         SP = mut("SPARE", b"spare", SDMF_VERSION)
         self.keep += [IMM, LIT, SF, DF, XF, M1, M2, M3, M4, ROOT, SUB, D2, D3, SP]
@@ -278,23 +283,51 @@ class Runner:
                "leaks": self.leaks(text + hdrtext, rq.get("may_appear", {})), "body": text[:200],
                "http": "%s %s" % (method, shown)}
         if after != self.base:
-            self.restore()
+            if not changed and all(k not in before for k in new):
+                # only new (orphan) objects appeared: remove their share directories, the gateway state is unaffected
+                for sname, s in self.grid.servers.items():
+                    for rel in new:
+                        shutil.rmtree(os.path.join(s.ss.sharedir, rel), ignore_errors=True)
+                if self.obs.snapshot() != self.base:
+                    self.restore()
+            else:
+                self.restore()
         return res
+
+
+def run_chunk(arg):
+    seed, requests = arg
+    R = Runner(seed)
+    results = {}
+    for rq in requests:
+        results[str(rq["id"])] = R.run_request(rq)
+    n = R.restores
+    objs = sorted(R.tree.caps)
+    R.grid.close()
+    return results, n, objs
 
 
 def main():
     ap = argparse.ArgumentParser()
     ap.add_argument("--out"); ap.add_argument("--in", dest="inp"); ap.add_argument("--seed", type=int, default=0)
-    ap.add_argument("--tier", default="quick")
+    ap.add_argument("--tier", default="quick"); ap.add_argument("--jobs", type=int, default=1)
     a = ap.parse_args()
     inp = json.load(open(a.inp))
-    R = Runner(a.seed)
+    reqs = inp["requests"]
+    jobs = max(1, a.jobs)
+    # each worker: its own servers, tree and gateway; its share of the requests is one history
+    chunks = [reqs[i::jobs] for i in range(jobs)]
+    args = [(a.seed, c) for c in chunks if c]
+    if len(args) == 1:
+        outs = [run_chunk(args[0])]
+    else:
+        import multiprocessing
+        with multiprocessing.get_context("fork").Pool(len(args)) as pool:
+            outs = pool.map(run_chunk, args)
     results = {}
-    for rq in inp["requests"]:
-        results[str(rq["id"])] = R.run_request(rq)
-    out = {"results": results, "restores": R.restores, "objects": sorted(R.tree.caps)}
-    R.grid.close()
-    json.dump(out, open(a.out, "w"))
+    for r, n, objs in outs:
+        results.update(r)
+    json.dump({"results": results, "restores": sum(o[1] for o in outs), "objects": outs[0][2]}, open(a.out, "w"))
 
 
 if __name__ == "__main__":
